@@ -107,11 +107,31 @@ def _observe_one(case):
         shutil.rmtree(root, ignore_errors=True)
 
 
+_POOL = None
+
+
+def _pool():
+    """One pool of worker processes for the whole run, forked after textX is imported and its grammar
+    parser is built (the workers inherit both)."""
+    global _POOL
+    if _POOL is None:
+        import textx  # noqa: F401
+        textx.metamodel_from_str("Warm: 'w' x=INT;")
+        _POOL = ProcessPoolExecutor(max_workers=NPROC)
+    return _POOL
+
+
+def _close_pool():
+    global _POOL
+    if _POOL is not None:
+        _POOL.shutdown()
+        _POOL = None
+
+
 def _observe_many(cases):
     if len(cases) < 40 or NPROC < 2:
         return [_observe_one(c) for c in cases]
-    with ProcessPoolExecutor(max_workers=NPROC) as ex:
-        return list(ex.map(_observe_one, cases, chunksize=16))
+    return list(_pool().map(_observe_one, cases, chunksize=max(1, min(16, len(cases) // (4 * NPROC)))))
 
 
 def skeleton_of(case, cid):
@@ -249,6 +269,13 @@ def run(rep):
     if os.environ.get("VT_C25_PLAN"):      # development aid: "mf:AB:2,mfg:A:3"
         plan = [(a, b, int(c)) for a, b, c in (x.split(":") for x in os.environ["VT_C25_PLAN"].split(","))]
     pending = []
+    try:
+        _run_conformance(rep, plan, quick, rng, pending, devs)
+    finally:
+        _close_pool()
+
+
+def _run_conformance(rep, plan, quick, rng, pending, devs):
     for (univ, names), (m, items) in enumerate_cases(plan).items():
         rep.add_mc(f"MC_Imports_Gen[{univ},{names}]", m, INVS)
         n = len(items)
